@@ -852,7 +852,10 @@ fn fork_scenario(rng: &mut StdRng, sc: usize, out: Box<dyn std::io::Write>, kv: 
     tg.remine = if sc % 3 != 0 { 0.6 } else { 0.0 };
     let a_tip = gen::extend_with_txs(&mut chain, 0, a_len, &p, rng, &mut tg);
     let fork_at = chain.ancestor_at(a_tip, (a_len - depth) as u64).unwrap();
-    let b_tip = gen::extend_with_txs(&mut chain, fork_at, depth + rng.gen_range(1..=3), &p, rng, &mut tg);
+    // (one scenario in three: the new branch ends more than last-N blocks above the abandoned tip, so that the last-N
+    //  headers of the new proof do not reach down to the fork point -- only the reorg section tells of the fork)
+    let ext = if rng.gen_bool(0.33) { last_n as usize + rng.gen_range(1..=3) } else { rng.gen_range(1..=3) };
+    let b_tip = gen::extend_with_txs(&mut chain, fork_at, depth + ext, &p, rng, &mut tg);
     let cfg = Config { last_n, max_outbound: npeers as u32, interval, blocks_in_transit: rng.gen_range(1..=4), ..Default::default() };
     let mut sim: Sim = new_sim(chain, cfg, npeers, out, &format!("fork-{}", sc), vec!["peersync", "filter"]);
     let tips: Vec<(usize, usize)> = (0..npeers).map(|_| (a_tip, a_tip)).collect();
@@ -877,8 +880,12 @@ fn fork_scenario(rng: &mut StdRng, sc: usize, out: Box<dyn std::io::Write>, kv: 
     // phase 1: sync on A; stop after a random number of rounds (mid-sync) or fully
     let full = rng.gen_bool(0.6);
     let rounds = if full { a_len / 2 + 8 } else { rng.gen_range(2..=6) };
+    // (in half of the scenarios phase 1 takes no time: on a chain that does not grow a session does not survive the
+    //  time-outs, and a peer that comes back announces the stored tip and cannot be proven again -- the peers would
+    //  nearly always meet the fork on a fresh session, without a prove state and without filter hashes of branch A)
+    let timeless = rng.gen_bool(0.5);
     for _ in 0..rounds {
-        pump(&mut sim, &mut env, rng, interval);
+        pump_opt(&mut sim, &mut env, rng, interval, !timeless);
     }
     if !full || rng.gen_bool(0.3) {
         // leave requests unanswered / blocks partly downloaded: a few fine-grained steps
